@@ -1,8 +1,8 @@
 package rules
 
 import (
-	"go/token"
 	"go/constant"
+	"go/token"
 	"go/types"
 	"sort"
 	"strings"
